@@ -128,3 +128,17 @@ Example gate_demo :
   trun completes fails (fun _ b => b) tconn0 [TBytes (B "ab"); TBytes (B "c"); TBytes (B "GET")] = [OEncrypted; OPlain (B "GET")]
   /\ trun completes fails (fun _ b => b) tconn0 [TBytes (B "GET / HTTP/1.1")] = [ORelease].
 Proof. vm_compute. split; reflexivity. Qed.
+
+(* 6. the life of one server object: every connection takes the branch of the configuration in force when it is accepted -
+      neither the number of earlier connections nor an earlier configuration matters *)
+Lemma srun_app tls a b : srun tls (a ++ b) = srun tls a ++ srun (fold_left (fun t o => match o with SSetConfig x => x | SAccept => t end) a tls) b.
+Proof.
+  revert tls. induction a as [|o a IH]; intros tls; [reflexivity|].
+  destruct o as [x|]; cbn [app srun fold_left]; [apply IH|]. rewrite IH. reflexivity.
+Qed.
+
+Theorem branch_follows_current_config tls pre b n :
+  srun tls (pre ++ SSetConfig b :: repeat SAccept n) = srun tls pre ++ repeat b n.
+Proof.
+  rewrite srun_app. f_equal. cbn [srun]. induction n as [|n IH]; [reflexivity|]. cbn [repeat srun]. rewrite IH. reflexivity.
+Qed.
